@@ -150,6 +150,7 @@ def run(ctx, rep):
             rep.violation("R08.5", "worker|unlink-order:%s" % expr_s(a)[:60], "unlink loop",
                           "the unlink loop does not iterate the received path vector itself, front to back", where=g.where(n))
 
+    r08_7(ctx, rep, g, P)
     r08_2(ctx, rep)
     r08_4(ctx, rep)
     r08_6(ctx, rep)
@@ -350,3 +351,56 @@ def r08_6(ctx, rep):
                               "a chunk file is created whose first record is not a State snapshot: %s" %
                               [expr_s(strip_ids(a))[:50] for a in args], where=g.where(n))
     rep.floor("R08.6", "chunk-creating call sites (rotation, open)", total, 2)
+
+
+def r08_7(ctx, rep, g, P, rule="R08.7"):
+    """`wait_worker_idle` observes `done_seq`: the worker may publish a sequence number only after every effect of the requests it
+    covers (file writes/syncs/unlinks, callbacks, eviction-boundary update); otherwise 'worker idle' does not mean 'chunks gone' / 'boundary installed'"""
+    rep.rule(rule, "the worker publishes done_seq only after all effects of the covered requests: between the store and the next recv there is no "
+                   "file mutation, sync, callback or boundary update")
+    stores = [n for n in P.calls(r"atomic::Atomic(U64|Usize)?(::<u64>)?::(store|fetch_max|fetch_add|swap)$") if has_field(strip_ids(event_args(g, n)[0]), "done_seq")]
+    rep.floor(rule, "done_seq updates in the worker", len(stores), 2)
+    recvs = set(P.calls(r"mpsc::Receiver::<T>::recv$"))
+    effects = set(P.calls(c04.WRITE_RX)) | set(P.calls(c04.SYNC_RX)) | set(P.calls(r"fs::(remove_file|rename)$")) | \
+        set(P.calls(r"callback::Callback::send$"))
+    bset = {n for n in P.live if any(s["k"] == "assign" and s["p"]["proj"] and
+                                     [el for el in s["p"]["proj"] if isinstance(el, dict) and el.get("n") == "last_evictable"] for s in g.stmts(n))}
+    effects |= bset
+    sset = set(stores)
+
+    def step(ms, pi, qi, learn):
+        n = P.gnode(pi)
+        if n in recvs:
+            return False
+        if n in sset:
+            return True
+        return ms
+    seen = run_monitor(P, False, step)
+    late = sorted({n for n in effects if any(P.gnode(pi) == n and ms for (pi, ms) in seen)})
+    for n in late:
+        what = cpath(g.term(n)).split("::")[-1] if g.term(n)["k"] == "call" else "last_evictable :="
+        rep.violation(rule, "worker|%s-after-done_seq" % what, what,
+                      "the worker marks requests as done (done_seq) before `%s`: wait_worker_idle() can return while chunk files are still being "
+                      "written/synced/unlinked or the eviction boundary is not installed yet" % what, where=g.where(n))
+    if not late:
+        rep.ok(rule, "done_seq", "published after all effects of the iteration (%d stores, %d effect sites)" % (len(stores), len(effects)), where=g.where(stores[0]) if stores else "")
+    # and idleness is decided by comparing the published value with the number of requests sent
+    wk = [k for k in ctx.prog.bodies if re.search(r"RaftLog::<T>::wait_worker_idle$", k)]
+    if rep.expect(rule, "RaftLog::wait_worker_idle", len(wk) == 1):
+        gi = ctx.graph(wk[0])
+        Pi = ctx.product(wk[0])
+        loads = [n for n in Pi.calls(r"atomic::Atomic(U64)?(::<u64>)?::load$") if has_field(strip_ids(event_args(gi, n)[0]), "done_seq")]
+        ok = False
+        for n in Pi.live:
+            for si, s in enumerate(gi.stmts(n)):
+                if s["k"] == "assign" and s["rv"]["k"] == "binop" and s["rv"]["op"] in ("Lt", "Ge", "Le", "Gt", "Eq", "Ne"):
+                    e = strip_ids(gi.prov_rvalue(gi.inst(n), s["rv"], None))
+                    a, b = e[2], e[3]
+                    if (call_is(a, r"::load$") and is_field(b, "sent_seq") and e[1] in ("Lt", "Ge")) or \
+                            (call_is(b, r"::load$") and is_field(a, "sent_seq") and e[1] in ("Gt", "Le")):
+                        ok = True
+        if ok and loads:
+            rep.ok(rule, "wait_worker_idle", "spins while done_seq < sent_seq", where=gi.where(gi.entry))
+        else:
+            rep.violation(rule, "wait_worker_idle|condition", "wait_worker_idle",
+                          "idleness is not decided by `done_seq >= sent_seq` (all requests sent so far)", where=gi.where(gi.entry))
